@@ -100,7 +100,7 @@ PROPS = {
 
 # source pins (translator/pins.py): the hand-written models that are tied by sampling only have the text they were
 # written from pinned, so that no edit of it goes unnoticed
-PINS = {"compile": ["C03", "C04", "C05", "C16", "C19"], "selection": ["C13"], "cache": ["C08"],
+PINS = {"compile": ["C03", "C04", "C05", "C16", "C19", "C13"], "selection": ["C13"], "cache": ["C08"],
         "construct": ["C09", "C08"], "validity": ["C06"], "stepping": ["C07", "C11", "C12", "C19"]}
 PIN_TRUST = ("translator pins.py (T9): source text of the hand-modelled code pinned by string equality ({}) - a pin, not a "
              "translation: it detects every edit and proves nothing about meaning")
